@@ -140,6 +140,7 @@ pub struct StructReport {
     pub table_done: bool,
     pub table_truncated: bool,
     pub product_pairs: usize,
+    pub dead_marker_links: u64,
 }
 
 const MAXV: usize = 6;
@@ -157,6 +158,9 @@ pub struct Opts {
     /// compare only the head of each state's output list (what find_iter and the no-suffix
     /// iterator read) instead of the whole list (what the overlapping iterator walks)
     pub outputs_head_only: bool,
+    /// this build aborts on an out-of-bounds unchecked access (debug assertions, ASan or Miri), so
+    /// the monitor may let the real loop decide whether an out-of-range link is ever dereferenced
+    pub can_probe: bool,
 }
 
 /// Runs closure + ranking on any automaton; shape if `trie` is given; table if additionally the
@@ -264,6 +268,21 @@ pub fn check_structure<V: Copy>(pma: &Pma<V>, trie: Option<&SymTrie>, opts: &Opt
         let st = pma.state(s).expect("validated index");
         let f = st.fail;
         if (f as usize) >= len {
+            // An out-of-range fail link is harmless iff the scan loop recognises it as a "dead"
+            // marker *before* using it as an index (the leftmost loops do that for their dead
+            // link, whatever value represents it). Decide by observation, not by assuming the
+            // marker's value: run the implementation's own loop once from s on a symbol that misses.
+            // Everything it touches before the link is already validated; if it does dereference
+            // the link, the build's sanitizer (std precondition check / ASan / Miri) aborts this
+            // worker and the driver reports the case through the journal.
+            if kind != MatchKind::Standard && opts.can_probe {
+                let miss_sym = symbols.iter().find(|&&(_, l)| l.map_or(false, |l| matches!(pma.child(s, l), Ok(None)))).map(|x| x.0);
+                if let Some(sym) = miss_sym {
+                    let _ = unsafe { pma.next_state(s, sym) };
+                    r.dead_marker_links += 1;
+                    continue;
+                }
+            }
             push(&mut r.closure, format!("state {s}: fail link {f} out of range (len={len})"));
             continue;
         }
